@@ -530,7 +530,7 @@ pub fn generate(seed: u64, thorough: bool) -> Vec<Input> {
     }
     // F2: deeper nesting over 2 constants + 1 atom
     let leaves3 = [U, T, Key(0)];
-    for p in exhaustive(if thorough { 7 } else { 6 }, &leaves3, false, 3) {
+    for p in exhaustive(if thorough { 8 } else { 7 }, &leaves3, false, 3) {
         if count_nodes(&p) >= 6 {
             cases.push(Input::Sem(p, vec![], vec![]));
         }
@@ -558,7 +558,7 @@ pub fn generate(seed: u64, thorough: bool) -> Vec<Input> {
 
     // random streams (all choices derive from the seed)
     let mut rng = Rng(seed ^ 0xC18C18C18);
-    let n_rand = if thorough { 3000 } else { 600 };
+    let n_rand = if thorough { 15000 } else { 1500 };
     for i in 0..n_rand {
         let natoms = 1 + rng.below(8) as usize;
         let atoms = rand_atoms(&mut rng, natoms);
